@@ -439,7 +439,14 @@ pub struct Scalar {
 /// scalar in Z_r with the boundary classes named by C01/C05
 pub fn scalar(s: &mut Src) -> Scalar {
     let r = zp::r();
-    match s.weighted(&[4, 3, 3, 2, 2, 3, 5, 2, 2]) {
+    match s.weighted(&[4, 3, 3, 2, 2, 3, 5, 2, 2, 2]) {
+        9 => {
+            // scalars are Montgomery-stored field elements too: stored representative = boundary pattern
+            // (e.g. stored limbs [1,0,0,0], i.e. the scalar 2^-256 mod r)
+            let x = stored_pattern(s, Md::R);
+            let x = if s.choose(4) == 0 { BigUint::one() } else { x };
+            Scalar { k: (x * Md::R.rinv()) % r, class: "stored-pattern" }
+        }
         8 => {
             // small integer combinations a + b*lambda^e of the order-3 endomorphism eigenvalue: scalars for which
             // intermediate multiples of P coincide with +-phi(P) (same or opposite y, different x)
